@@ -3,6 +3,7 @@ public + sensitive = the unsplit message; parsing public then sensitive recovers
 Spec: spec/Sce.tla (+SceGen, SceTrace). Driver: qxv sce."""
 import os
 
+import tracepar
 import vf
 
 LEVEL = "model_checking"
@@ -27,9 +28,10 @@ def run(chk, replay=None):
         # the table is still needed for the driver/spec consistency check
         vf.tlc_gen("SceGen.tla", "SceGen2.cfg", env={"QXV_TABLE": tpath}, tag="SceTable")
     else:
-        ex, st1 = vf.tlc_gen("SceGen.tla", "SceGen2.cfg" if quick else "SceGen3.cfg", env={"QXV_TABLE": tpath})
-        sim, st2 = vf.tlc_simulate("SceGen.tla", "SceGenSim.cfg", num=150 if quick else 3000, depth=70, seed=chk.seed,
-                                   workers=W, env={"QXV_TABLE": ""})
+        (ex, st1), (sim, st2) = tracepar.par([
+            lambda: vf.tlc_gen("SceGen.tla", "SceGen2.cfg" if quick else "SceGen3.cfg", env={"QXV_TABLE": tpath}),
+            lambda: vf.tlc_simulate("SceGen.tla", "SceGenSim.cfg", num=40 if quick else 800, depth=70, seed=chk.seed,
+                                    workers=1, env={"QXV_TABLE": ""})])
         # only complete behaviours (ending in Recover) are of interest; prefixes are covered by them
         behs = [b for b in ex + sim if b["steps"] and b["steps"][-1]["a"] == "Recover"]
         chk.cov["generation"] = {"exhaustive_sets": st1, "simulate": st2}
@@ -55,7 +57,9 @@ def run(chk, replay=None):
     if (r["sanitizer"] or r["rc"] != 0) and r["rc"] == 2 and not r["sanitizer"]:
         raise vf.MachineryError("qxv sce failed: " + r["stderr"][-2000:])
     # 4. trace validation
-    s = vf.tlc_trace("SceTrace.tla", "SceTrace.cfg", trace)
+    s = tracepar.tlc_trace_chunks(chk, "SceTrace.tla", "SceTrace.cfg", tracepar.split_executions(vf.read_ndjson(trace)))
+    chk.cov["trace_validation_wall_s"] = s["wall_s"]
+    chk.cov["driver_wall_s"] = r["wall_s"]
     sizes = {}
     for b in behs:
         n = sum(1 for st in b["steps"] if st["a"] == "Set")
